@@ -30,7 +30,7 @@ CFG = dict(
     rule="(a) lock-step in synctest bubbles, real client vs scripted peer: k calls (every mix of unary / stream), EVERY permutation of their "
          "response envelopes for k <= 2 with 1..3 envelopes each (quick: all but the 6-envelope shapes, of which one sixth chosen by the "
          "seed; thorough: all), k = 3 sampled (150 / 4000), one third with an envelope for a foreign id inserted; bodies encode (call, "
-         "position) so that the routing predicates are evaluated on the observed returns; (b0) 40 (thorough 400) FRESH connections whose very first RPCs are started at the same instant by 64 callers (spin barrier), one unary call each; (b) free-running, real goroutine concurrency, "
+         "position) so that the routing predicates are evaluated on the observed returns; (b0) 40 (thorough 400) FRESH connections whose very first RPCs are released by one barrier: 2 / 8 / 14 spinning callers at GOMAXPROCS 16, 16 / 64 callers behind a channel barrier at GOMAXPROCS 1 / 4 / 16, one unary call each, ids recorded from the connection's very first envelope; (b) free-running, real goroutine concurrency, "
          "real client + real server: 64 goroutines start 10^4 (thorough 10^5) calls (10% bidi streams) on one connection with seeded "
          "yields at the verif hook points; ids of all first envelopes taken from the wire, (request, reply) recorded by every caller; one unary call in seven has an "
          "already-ended context (its transport write fails cleanly while the others are in flight), one stream in three is aborted by "
